@@ -188,7 +188,7 @@ GOALS = ["verify-fails", "verify-sees-other-file", "flock-blocked", "acquire-aft
 def goal_schedule(tmp, goal, procs, crashes, init):
     """The shortest schedule (TLC breadth-first) whose last step takes the named branch of the protocol."""
     cfg = (f"SPECIFICATION GSpec\nCONSTANTS\n  Procs <- {procs}\n  Protocol = \"flock\"\n  InitFiles = {{\"{init}\"}}\n  MaxCrashes = {crashes}\n  MaxIno = 8\n"
-           f"  Goal = \"{goal}\"\nINVARIANTS GoalInv\nCHECK_DEADLOCK FALSE\n")
+           f"  Goal = \"{goal}\"\nINVARIANTS GoalInv\nCONSTRAINT GoalBound\nCHECK_DEADLOCK FALSE\n")
     res = core.tlc(os.path.join(tmp, f"goal_{goal}_{procs}_{init}"), "LockerGen.tla", "g.cfg", workers=1, timeout=600, files={"g.cfg": cfg}, heap="8g")
     for line in res.out.splitlines():
         if line.startswith('<<"TRACEJSON", '):
@@ -240,6 +240,8 @@ def run(chk, tmp, replay=None):
     goal_jobs = []
     for goal in GOALS:
         for procs, crashes in (("P2", 1), ("P3", 1)):
+            if goal == "verify-sees-other-file" and procs == "P2":
+                continue   # needs a third process that creates a new lock file
             for init in (["nofile", "deadpid"] if quick else ["nofile", "deadpid", "empty", "garbage"]):
                 goal_jobs.append((goal, procs, crashes, init))
 
